@@ -48,3 +48,15 @@ package connlist
 //@             else ((strJoin2Name(clNamespace(p), clName(p)) + "[") + wpKind(unwrap(p, *k8s.WorkloadPeer).Pod)) + "]")
 //@       else (if dyntype(p, *k8s.PodPeer) then strJoin2Name(clNamespace(p), clName(p)) else ipRangesStr(unwrap(p, *k8s.IPBlockPeer).IPBlock))
 //@ fun clSameStr(a Peer, b Peer) bool = clStr(a) == clStr(b)
+
+// ---------------------------------------------------------------------------------------------
+// Directory API: a reading failure is reported only when the scanner reported one (C13, C18)
+// ---------------------------------------------------------------------------------------------
+
+//@ func (*ConnlistAnalyzer).ConnlistFromDirPath
+//@   requires ca != nil
+//@   modifies *
+//@   before call 2:
+//@     assert [C13,C18] scanfailed: len(errs) > 0
+//@   before call 6:
+//@     assert [C13,C18] scanfailed2: len(errs) > 0
